@@ -51,6 +51,20 @@ theorem hooks_balanced (b : Stacks) (first : Spawn) (turns : List Turn)
   apply balanced_of_scan
   rw [hg.scanned, hg.fin (by rw [← hr.status]; exact h)]
 
+/-- stronger: the whole transaction is ONE bracket — the notification of the transaction's own call /
+create / EOF-create comes first, its `*_end` (same kind, same inputs) comes last, and everything in
+between is balanced -/
+theorem transaction_is_one_bracket (b : Stacks) (first : Spawn) (turns : List Turn)
+    (h : (runTx b first turns).1 = .finished) :
+    ∃ u o, (runTx b first turns).2.word = Ev.opn first.k first.i :: (u ++ [Ev.cls first.k first.i o]) ∧
+      Balanced u := by
+  have hr := runTx_rel b first turns
+  have ht := aRunTx_top first turns
+  have hfin : (aRunTx first turns).1 = .finished := by rw [← hr.status]; exact h
+  unfold TopRes at ht
+  rw [hfin] at ht
+  rw [hr.word]; exact ht
+
 /-- the same through the decidable checker -/
 theorem hooks_check (b : Stacks) (first : Spawn) (turns : List Turn)
     (h : (runTx b first turns).1 = .finished) : check (runTx b first turns).2.word = true :=
